@@ -35,6 +35,7 @@ from insights.core.exceptions import NoFilterException, ContentException, Called
 from insights.core.spec_factory import SpecSet, TextFileProvider, CommandOutputProvider  # noqa: E402
 from insights.cleaner import Cleaner             # noqa: E402
 from insights.cleaner.filters import AllowFilter  # noqa: E402
+from worlds import w2_collect                    # noqa: E402,F401  (the end-to-end share: its imports -- DefaultSpecs -- belong to the base registry)
 
 
 def V(oracle, cls, message):
